@@ -122,9 +122,7 @@ macro_rules! delta_header {
             }
             let r = DeltaBinaryPackedValueDecoder::<i32>::try_new(ReadCursor::from_slice(&bytes));
             kani::cover!(r.is_err());
-            if $len >= 6 {
-                kani::cover!(r.is_ok());
-            }
+            kani::cover!($len < 6 || r.is_ok());
             core::mem::forget(r);
         }
     };
